@@ -193,6 +193,8 @@ class Tiny:
                     return list(recv)
                 if isinstance(recv, Buf) and len(recv) == 0 and e.func.attr == "join" and len(e.args) == 1:
                     parts = self.ev(e.args[0])
+                    if isinstance(parts, list) and not parts:
+                        return Buf(0, 0)
                     if isinstance(parts, list) and parts and all(isinstance(x, Buf) for x in parts):
                         return Buf(0, sum(len(x) for x in parts))  # only the length of a concatenation is modelled
                     if isinstance(parts, list):
@@ -262,7 +264,7 @@ class Tiny:
                     return dict(v)
                 raise AnalysisError(f"tiny: dict() of {v!r}")
             if isinstance(e.func, ast.Attribute) and e.func.attr in ("append", "remove", "extend", "insert", "pop", "get", "setdefault", "clear", "values", "keys", "items",
-                                                                    "index", "count", "copy"):
+                                                                    "index", "count", "copy", "popleft", "appendleft"):
                 try:
                     tgt = self.ev(e.func.value)
                 except AnalysisError:
